@@ -15,7 +15,7 @@ SHARDS = {"quick": 8, "thorough": 16}
 
 NAMES = ["a", "b", "c", "d"]
 VALUES = [
-    "s1", "s2", 7, 0, True, False, None, [1, 2, 3], ["x", "y"], [], {"k": "v", "n": {"k": [10, 20]}}, {"size": 99, "first": "F"},
+    "s1", "s2", "a", "b", "c", 7, 0, True, False, None, [1, 2, 3], ["x", "y"], [], {"k": "v", "n": {"k": [10, 20]}}, {"size": 99, "first": "F"},
     {"a": 1, "b": [5, 6]}, "", "word", [[1, 2], [3]], {"list": [{"k": 1}, {"k": 2}], "idx": 1, "key": "k"},
 ]
 
@@ -38,6 +38,10 @@ def _segments(r, depth: int) -> list:
 
 
 def _path(r, extra_roots=()) -> list:
+    if r.random() < 0.1:
+        # a bracketed root: the variable whose name is held by another variable ("s1"/"word" name nothing, "a".."d" do)
+        inner = [r.choice(NAMES + ["ref"]), *( [["k", "key"]] if r.random() < 0.15 else [])]
+        return [["v", inner], *(_segments(r, 1) if r.random() < 0.5 else [])]
     return [r.choice(NAMES + list(extra_roots)), *_segments(r, 1)]
 
 
@@ -73,7 +77,10 @@ def _block(r, depth: int, partials: bool) -> list:
             name = r.choice(["p1", "p2", "c"])
             bind = None
             if r.random() < 0.5:
-                bind = [r.choice(["with", "for"]), _path(r), r.choice([None, r.choice(NAMES)])]
+                bp = _path(r)
+                while isinstance(bp[0], list):
+                    bp = _path(r)  # (the bound variable of include has to start with a name: "[x]" is a syntax error there)
+                bind = [r.choice(["with", "for"]), bp, r.choice([None, r.choice(NAMES)])]
             kwargs = [[k, _val(r)] for k in r.sample(NAMES, r.choice([0, 0, 1, 2, 2]))]
             if len(kwargs) == 2 and r.random() < 0.5:
                 # arguments that name one another: each is evaluated in the caller's scope, not next to its siblings
@@ -96,6 +103,9 @@ def cases(draw):
     partials = {n: _block(r, 1, False) for n in ("p1", "p2", "c")}
     prog = _block(r, 3, True)
     layers = {"args": _layer(r), "matter": _layer(r), "tglobals": _layer(r), "eglobals": _layer(r)}
+    if r.random() < 0.6:
+        # "ref" holds the name of another variable (read through a bracketed root, see _path)
+        layers[r.choice(["args", "tglobals", "eglobals", "matter"])]["ref"] = r.choice(NAMES + ["idx", "nosuch"])
     if r.random() < 0.15:
         layers[r.choice(["args", "tglobals", "eglobals"])]["now"] = "USER-NOW"
         prog.append(["out", ["now"]])
